@@ -325,6 +325,11 @@ def run_c16(ctx):
         dict(_R("Cfg", dict(_R("ccAny", a, b, LEAF("c")), d="a"), dict(_R("ccXor", LEAF("x"), LEAF("y")), d="x"), id="cfg")),
         dict(_R("Cfg", dict(_R("ccAny", LEAF("s", 0, 3), b, LEAF("c")), d="s"), id="cfg")),
     ]]
+    # defaulted Xor / Any over differently named members (generated ids decide the order of the two halves)
+    for names in ("klm", "ghi", "bcd", "xyz", "pqr", "abcd", "efg", "mno"):
+        for dflt in (names[0], names[-1]):
+            cases.append({"recipe": dict(_R("Cfg", dict(_R("ccXor", *[LEAF(x) for x in names]), d=dflt), dict(_R("ccAny", *[LEAF(x) for x in names[::-1]]), d=dflt), id="cfg")), "src": "handmade"})
+            cases.append({"recipe": dict(_R("ccXor", *[LEAF(x) for x in names]), d=dflt), "src": "handmade"})
     ctx.pmap(drivers.drv_json, _stamp(cases, "drv_json"))
     ctx.validate()
 
@@ -434,7 +439,7 @@ def run_c19(ctx):
 
 def run_c20(ctx):
     q = ctx.tier == "quick"
-    u = {"IdPool": {"a", "b", "n7", "uml"} if not q else {"a", "n7", "uml"}, "BoundOpts": S([(0, 1), (1, 1), (-3, 4)] if q else [(0, 1), (1, 1), (-3, 4), (2, 2)]),
+    u = {"IdPool": {"a", "n1", "s1", "uml"} if not q else {"n1", "s1", "uml"}, "BoundOpts": S([(0, 1), (1, 1), (-3, 4)] if q else [(0, 1), (1, 1), (-3, 4), (2, 2)]),
          "MaxVars": 2 if q else 3, "Vals": S([0, 5] if q else [0, 5, -2]), "Unknown": "zz"}
     r = ctx.model_check("PuanBridge", u, invariants=["C20"], dump=True, name="Bridge_C20")
     cases = []
@@ -447,7 +452,8 @@ def run_c20(ctx):
     for k, c in enumerate(cases): c["bits"] = [k % 2, 1, (k // 2) % 2]
     rng = ctx.rng
     for k in range(300 if q else 3000):
-        ids = rng.sample(["a", "b", "c", "n7", "uml", "fz", "A", "zq"], rng.randint(1, 5))
+        ids = rng.sample(["a", "b", "c", "n7", "uml", "fz", "A", "zq", "n1", "s1", "nul"], rng.randint(1, 5))
+        if "n1" in ids and "s1" in ids: ctx.region("int_and_str_form")
         vs = [{"id": i, "lo": b[0], "hi": b[1]} for i, b in ((i, rng.choice([(0, 1), (1, 1), (-3, 4), (2, 2), (0, 0), (-5, -2)])) for i in ids)]
         keys = rng.sample(ids + ["zz"], rng.randint(0, len(ids)))
         lst = [rng.choice(ids + ["zz"]) for _ in range(rng.randint(0, 4))]
